@@ -1,4 +1,5 @@
 import Driver.VecDriver
+import Driver.SetDriver
 open AmcVerif AmcVerif.Driver
 
 def main : IO UInt32 := do
@@ -13,5 +14,9 @@ def main : IO UInt32 := do
       match parseCfg rest with
       | some s => loop stdin stdout s 0; return 0
       | none => IO.eprintln "bad cfg"; return 2
+    | "set" =>
+      match parseSetCfg rest with
+      | some s => setLoop stdin stdout s 0; return 0
+      | none => IO.eprintln "bad set cfg"; return 2
     | k => IO.eprintln s!"unknown kind {k}"; return 2
   | _ => IO.eprintln "first line must be cfg"; return 2
